@@ -287,13 +287,13 @@ class Model:
 
         def scan(body, cls):
             for n in body:
-                if isinstance(n, ast.FunctionDef):
+                if isinstance(n, (ast.FunctionDef, ast.AsyncFunctionDef)):
                     q = f'{m}::{cls + "." if cls else ""}{n.name}'
                     if known and q not in known:
                         kind = canon.helper_candidate(n)
                         if kind is not None:
-                            if cls and kind == 'function':
-                                kind = 'method'
+                            if cls and kind in ('function', 'afunction'):
+                                kind = 'method' if kind == 'function' else 'amethod'
                             try:
                                 hn = canon.canon_function(n, protocol=False)
                             except RecursionError:  # pragma: no cover
